@@ -21,4 +21,14 @@ CHECKS = {
                 text="All histories of retryable failures (TCP/TLS ConnectError/ConnectTimeout) followed by every terminal outcome for N in 0..4, TCP and Unix sockets, http and https, all three flavours; observed call sequence, delays and final outcome must equal the model's; successful histories get a post-establishment fault that must not be retried.",
                 note="Complete for the stated finite space; back-end behaviour is scripted at the NetworkBackend interface."),
 }
+CHECKS.update({
+    "C05": dict(category="fault_enumeration", design_ref="DESIGN §4 C05",
+                technique="runtime monitoring with single-fault / single-cancellation injection: every simulated network operation x documented fault kind and every real suspension point x {scope-before, scope-after, native task} cancellation, judged at quiescence by pool-state oracles and a public-API capacity probe",
+                text="For 13 connection types x 3 request shapes x up to 5 contexts x 3 flavours a baseline run counts network operations and suspension points of the real coroutine (Stepper); each is then re-run with exactly one injection. After every run: repr(pool) counts no request, no pooled connection is neither idle nor closed nor expired, and max_connections fresh requests all obtain a connection. Quick samples long yield ranges and non-core combinations; thorough enumerates all.",
+                note="Injections only at real operations/yields; simulated back-end mirrors the real back-ends' checkpoint discipline; sync flavour has fault injection only (no cancellation exists there)."),
+    "C06": dict(category="fault_enumeration", design_ref="DESIGN §4 C06",
+                technique="runtime monitoring (leak-sanitizer analogue): stream ledger conservation over the same single-injection enumeration as C05, ownership decided by gc reachability from pool.connections",
+                text="After every single-injection run, every open simulated transport must be reachable from a pooled connection (else it is an orphan) and after pool close none may be open; each pooled connection owns at most one open transport.",
+                note="A stream counts as closed when close()/aclose() was called; start_tls closes on failure but not on cancellation (as the real back-ends)."),
+})
 NOT_YET = {}
